@@ -389,7 +389,7 @@ int main(int argc, char** argv) {
       fprintf(stderr, "unknown op %s at line %ld\n", op, (long)cur_line); return 9;
     }
   }
-  alarm(0);
+  alarm(45);
   for (int i = 1; i < MAXO; i++) drop(&objs[i]);
   tup_free_all();
   ev_begin("end"); ev_ledger(); ev_int("line", cur_line); ev_end();
